@@ -369,8 +369,8 @@ def c22_5(cx):
     cx.sites(sw, 2, "lock-word swaps in update")
     take = [s for s in sw if cx.arg(s, 1).startswith("Option::None")]
     cx.sites(take, 1, "the swap(None) that takes the write lock")
-    cx.flow(u, o, [r"previous: revision::OptionalAtomicRevision::load\(.*\.updated_at\)\}$"], [r"previous: Option::Some\{0: zalsa::Zalsa::current_revision", r"previous: Option::None"], "the guard remembers the revision observed before the lock was taken", ag)
-    cx.flow(u, o, [r"^UnlockOnUnwind\{updated_at: .*\.updated_at, previous:"], [], "and points at this slot's lock word", ag)
+    cx.flow(u, o, [r"\w+: revision::OptionalAtomicRevision::load\(.*\.updated_at\)\}$"], [r"\w+: Option::Some\{0: zalsa::Zalsa::current_revision", r"\w+: Option::None\{\}\}$"], "the guard remembers the revision observed before the lock was taken", ag)
+    cx.flow(u, o, [r"^UnlockOnUnwind\{\w+: .*\.updated_at, \w+:"], [], "and points at this slot's lock word", ag)
     for l in ld:
         if cx.arg(l, 0) and "updated_at" in cx.arg(l, 0):
             cx.check(not u.reaches(take[0], l), "the remembered revision is loaded before the lock word is overwritten", l, key="load-before-take")
@@ -378,6 +378,6 @@ def c22_5(cx):
     d = cx.facts.drop_impl(r"update::UnlockOnUnwind")
     cx.require(d is not None, "Drop for UnlockOnUnwind")
     s2 = cx.one_call(d, r"^revision::OptionalAtomicRevision::swap$", "swap in UnlockOnUnwind::drop")
-    cx.flow(d, cx.arg(s2, 1), [r"^\$1\.previous$"], [r"^Option::", r"current_revision"], "the guard restores exactly what it remembered", s2)
-    cx.flow(d, cx.arg(s2, 0), [r"^\$1\.updated_at$"], [], "into the lock word it guards", s2)
+    cx.flow(d, cx.arg(s2, 1), [r"^\$1\.\w+$"], [r"^Option::", r"current_revision"], "the guard restores exactly what it remembered", s2)
+    cx.flow(d, cx.arg(s2, 0), [r"^\$1\.\w+$"], [], "into the lock word it guards", s2)
     cx.only_if(d, s2, CallIs(r"thread::panicking$", True, desc="thread::panicking()"), "the lock word is touched by the guard only while unwinding")
